@@ -293,7 +293,8 @@ bool url_aggregator::set_password(const std::string_view input) {
   return true;
 }
 
-bool url_aggregator::set_port(const std::string_view input) {
+template <bool check_length>
+bool url_aggregator::set_port_impl(const std::string_view input) {
   ada_log("url_aggregator::set_port ", input);
   ADA_ASSERT_TRUE(validate());
   ADA_ASSERT_TRUE(!helpers::overlaps(input, buffer));
@@ -328,9 +329,11 @@ bool url_aggregator::set_port(const std::string_view input) {
   url_aggregator saved_url(*this);
   parse_port(digits_to_parse);
   if (is_valid) {
-    if (buffer.size() > ada::get_max_input_length()) {
-      *this = std::move(saved_url);
-      return false;
+    if constexpr (check_length) {
+      if (buffer.size() > ada::get_max_input_length()) {
+        *this = std::move(saved_url);
+        return false;
+      }
     }
     return true;
   }
@@ -338,6 +341,10 @@ bool url_aggregator::set_port(const std::string_view input) {
   is_valid = true;
   ADA_ASSERT_TRUE(validate());
   return false;
+}
+
+bool url_aggregator::set_port(const std::string_view input) {
+  return set_port_impl<true>(input);
 }
 
 bool url_aggregator::set_pathname(const std::string_view input) {
@@ -657,7 +664,7 @@ bool url_aggregator::set_host_or_hostname(const std::string_view input) {
       // state.
       std::string_view port_buffer = new_host.substr(location + 1);
       if (!port_buffer.empty()) {
-        set_port(port_buffer);
+        set_port_impl<false>(port_buffer);
       }
       return check_url_size();
     }
